@@ -89,6 +89,11 @@ class HandshakeServer(Actor):
         self.cur_off = 0
         self.sent = 0
         self.down_fragments_sent = 0
+        self.upcodec = proto.BASE32
+        self.up_cur_seq = None
+        self.up_cur_frag = -1
+        self.up_buf = b""
+        self.up_frames = []
 
     def step_of(self, text, q):
         c = text[:1].lower()
@@ -118,6 +123,8 @@ class HandshakeServer(Actor):
         if step == "S":
             code = proto.b32_val(text[2]) if len(text) > 2 else 0
             c = proto.CODEC_BY_BITS.get(code)
+            if c:
+                self.upcodec = c
             return (c.name.encode() if c else b"BADCODEC"), self.downenc
         if step == "O":
             ch = text[2:3].upper().decode("latin1")
@@ -157,6 +164,30 @@ class HandshakeServer(Actor):
                 b0 = 0x80 | (h["up_seq"] << 4) | h["up_frag"]
                 self.last_up = b0
                 ack = (h["dn_seq"], h["dn_frag"])
+                if self.serve_down:
+                    # upstream as the protocol document describes it: the data behind the 5 header characters, in the codec the
+                    # client switched to with 'S' (Base32 until then); a repeated fragment is not appended twice
+                    try:
+                        part = self.upcodec.decode(text[5:])
+                    except Exception:
+                        part = None
+                    key = (h["up_seq"], h["up_frag"])
+                    if part is not None:
+                        if h["up_seq"] != self.up_cur_seq:
+                            self.up_cur_seq, self.up_cur_frag, self.up_buf = h["up_seq"], h["up_frag"], part
+                            fresh = True
+                        elif h["up_frag"] > self.up_cur_frag:
+                            self.up_cur_frag = h["up_frag"]
+                            self.up_buf += part
+                            fresh = True
+                        else:
+                            fresh = False
+                        if fresh and h["last"]:
+                            try:
+                                self.up_frames.append(proto.inflate(self.up_buf))
+                            except Exception:
+                                self.up_frames.append(None)
+                            self.up_buf = b""
             else:
                 b0 = getattr(self, "last_up", 0x80)
                 try:
